@@ -162,6 +162,12 @@ def run_oset(oset: ObligationSet, loader, max_paths=MAX_PATHS, obl_timeout_ms=No
                     cur.clear()
                     cur.update(ent)
                     cur["paths"], cur["secs"] = keep_paths, keep_secs
+                elif ob.status == "failed" and cur["status"] == "failed" and ent.get("model") is not None and (
+                        cur.get("model") is None or len(ent["model"]) < len(cur["model"])):
+                    keep_paths, keep_secs = cur["paths"], cur["secs"]
+                    cur.clear()
+                    cur.update(ent)
+                    cur["paths"], cur["secs"] = keep_paths, keep_secs
                 elif ob.backend != "syntactic" and cur.get("backend") == "syntactic":
                     cur["backend"] = ob.backend
         if len(rep.samples) < 2 and path.obligations:
